@@ -1108,7 +1108,8 @@ m("C11", "filename-not-stamped", TP,
 m("C11", "define-names-rsplit", TL,
   "            names = [n.strip() for n in name.strip('()').split(',')]",
   "            names = [n.strip() for n in name.strip('()').rsplit(',')]",
-  expect="silent")  # no raise site in this function uses 'names'
+  )  # names become plain str: reserved-name errors raised in compiler.py
+     # lose their position (shown by seeded C11-define-names-removeprefix)
 m("C11", "split-parts-shrinks-before-split", TL,
   '''    parts = []
     start = i = 0
